@@ -39,4 +39,4 @@ def run(res, only=None):
 def replay(res, path, only=None):
     import json
     fam = json.load(open(path)).get("case", {}).get("fam")
-    return core.generic_replay(res, path, {"lane": "lane", "int": "int"}.get(fam, "mask"))
+    return core.replay_dispatch(res, path, {"lane": "lane", "int": "int"}.get(fam, "mask"))
